@@ -7,7 +7,7 @@ TRUSTED = ['Coq 8.16.1 kernel (coqc, full .vo build)', 'translator tools/transla
            'independent Python encoder bin/jbv/gen.py written from the README (literal constants)']
 ASSUMPTIONS = ['ser.rs / de.rs are modelled by hand in coq/Codec.v (buffer + back-patching; cursor decoder) and tied by correspondence',
                'sizes: payload < 2^28 bytes and count < 2^29 (wf_size); beyond that the entry word overflows its field (known finding)']
-RULE = 'structured values: depth <= 6, empty/singleton/wide containers, keys that are prefixes / case variants / multi-byte, numbers from width-boundary pools, NaN/inf; non-trivial = a container or a scalar with payload; distinct by value text'
+RULE = 'structured values: depth <= 6 at random plus a corpus of counts (100..1000 containers/elements in one document) and nesting 64..500, empty/singleton/wide containers, keys that are prefixes / case variants / multi-byte, numbers from width-boundary pools, NaN/inf; non-trivial = a container or a scalar with payload; distinct by value text'
 
 
 def normalise(v):
@@ -32,6 +32,28 @@ def generate(ctx):
              ('a', [('s', b'a'), ('o', []), ('u', 10)]), ('o', [(b'', n), (b'a', ('a', [])), (b'ab', ('o', [(b'k', ('s', b'v'))]))]),
              ('o', [(b'a', ('u', 127)), (b'b', ('u', 128)), (b'c', ('i', -129)), (b'd', ('i', 32768)), (b'e', ('u', 1 << 32))]),
              ('a', [('a', [('a', [('a', [('a', [('u', 1)])])])])]), ('o', [(b'\xc3\xa9', ('s', 'é\U0001F600'.encode()))])]
+    # counts and nesting the random trees never reach: many containers in one document (a decoder that keeps a counter
+    # per container, a capacity hint, a depth guard ...), element counts around the byte-width boundaries of the header
+    # count, and moderate nesting well below the stack limit
+    e_a, e_o = ('a', []), ('o', [])
+    key = lambda i: ('k%04d' % i).encode()
+    for cnt in (100, 127, 128, 129, 130, 200, 255, 256, 257, 300, 1000):
+        vals.append(('a', [e_a] * cnt))
+        vals.append(('a', [e_o] * cnt))
+        vals.append(('o', [(key(i), e_a if i % 2 else e_o) for i in range(cnt)]))
+        vals.append(('a', [('o', [(b'a', e_a), (b'b', e_o), (b'c', ('u', i))]) for i in range(cnt // 3 + 1)]))
+        vals.append(('a', [('s', b'x' * (i % 5)) for i in range(cnt)]))
+        vals.append(('a', [('a', [('u', i)]) for i in range(cnt)]))
+    vals.append(('a', [n] * 4097))       # larger counts make the list-based model quadratic (back-patching by index)
+    for d in (64, 100, 127, 128, 129, 130, 200, 255, 256, 257, 300, 500):
+        v1 = ('u', 7)
+        v2 = ('s', b'leaf')
+        v3 = e_a
+        for i in range(d):
+            v1 = ('a', [v1])
+            v2 = ('o', [(b'k', v2)])
+            v3 = ('a', [v3, e_o]) if i % 2 else ('o', [(b'x', v3)])
+        vals += [v1, v2, v3]
     for x in gen.INT_POOL:
         vals.append(('i', x))
         vals.append(('a', [('i', x), ('s', b'x')]))
